@@ -39,6 +39,8 @@ int __real_posix_memalign(void **, size_t, size_t);
 void __real_free(void *);
 }
 
+extern "C" int dsim_flavour_b __attribute__((weak));
+
 namespace sim {
 
 // ------------------------------------------------------------------ low level
@@ -78,6 +80,7 @@ struct SimThread {
     int wake_reason = WR_NONE;
     uint64_t prio = 0;
     uint64_t last_run_step = 0;
+    uint32_t access_countdown = 0;            // flavour B: instrumented accesses until the next decision point
     int create_fail_n = 0, create_fail_err = 0; // armed per calling thread
     int aff_fail_n = 0, aff_fail_err = 0;
 };
@@ -106,6 +109,7 @@ struct Global {
     std::vector<uint64_t> pct_points;
     uint64_t pct_low = 0;
     double p_spurious = 0, p_stall = 0, p_clockjump = 0;
+    uint32_t access_mean = 0; // flavour B
     uint64_t soft_budget = 0, hard_budget = 0;
     bool tail = false;
     uint64_t steps = 0;
@@ -139,6 +143,9 @@ struct Global {
     // pages
     std::vector<PageInfo> pages;
     uint64_t pages_total = 0;
+    bool recycle = false;
+    std::vector<void *> pool;      // freed by the code under test, kept
+    std::vector<void *> pool_taken; // handed to the simulated allocator; really freed at the next begin()
 };
 static Global G;
 static Slot *g_slots = nullptr;
@@ -590,6 +597,10 @@ void begin(const Plan &plan) {
     G.choice_idx = 0; G.rec.clear(); G.choice_hash = 0;
     G.pushref_mode = 0; G.pushref_next = false;
     G.pages.clear(); G.pages_total = 0;
+    for (void *q : G.pool) __real_free(q);
+    for (void *q : G.pool_taken) __real_free(q);
+    G.pool.clear(); G.pool_taken.clear();
+    G.recycle = false;
     G.obs = nullptr; G.obs_ud = nullptr;
 
     uint64_t sseed = (uint64_t)plan.get("sched_seed", (int64_t)plan.seed);
@@ -621,6 +632,12 @@ void begin(const Plan &plan) {
         uint64_t len = (uint64_t)plan.get("pct_len", 500);
         for (int i = 0; i < d; i++) G.pct_points.push_back(1 + G.rng.below(len));
         std::sort(G.pct_points.rbegin(), G.pct_points.rend());
+    }
+    G.access_mean = 0;
+    if (&dsim_flavour_b && dsim_flavour_b) {
+        static const uint32_t means[] = {4, 15, 60, 250};
+        uint32_t d = G.replay ? 0 : (uint32_t)G.rng.below(4);
+        G.access_mean = means[choose(CK_MISC, 4, d)];
     }
     SimThread &t0 = G.th[0];
     t0.id = 0; t0.state = TS_RUNNING; t0.slot = &g_slots[0];
@@ -677,6 +694,15 @@ Stats end() {
 void set_create_fail(int nth, int err) { if (tl_self) { tl_self->create_fail_n = nth; tl_self->create_fail_err = err; } }
 void set_affinity_fail(int nth, int err) { if (tl_self) { tl_self->aff_fail_n = nth; tl_self->aff_fail_err = err; } }
 const std::vector<PageInfo> &live_pages() { return G.pages; }
+void set_page_recycling(bool on) { G.recycle = on; }
+void *take_recycled_page() {
+    if (G.pool.empty()) return nullptr;
+    void *q = G.pool.back();
+    G.pool.pop_back();
+    G.pool_taken.push_back(q);
+    return q;
+}
+size_t recycled_pages() { return G.pool.size(); }
 uint64_t pages_allocated_total() { return G.pages_total; }
 
 void set_pushref_mode(int mode, double p) { G.pushref_mode = mode; G.pushref_p = p; }
@@ -893,6 +919,20 @@ int thread_detach(pthread_t h) {
 using namespace sim;
 extern "C" {
 
+// flavour B: called for every instrumented plain load/store in library code. Sparse: a per-thread countdown, drawn
+// through the choice stream, decides which accesses become decision points.
+void sim_access_point(const void *addr, int size_and_write) {
+    (void)addr;
+    if (!sim::active()) return;
+    sim::SimThread *me = sim::tl_self;
+    if (me->access_countdown > 1) { me->access_countdown--; return; }
+    if (sim::G.tail) { me->access_countdown = 64; return; }
+    if (me->access_countdown == 1) sim::point(PK_ACCESS, nullptr, size_and_write);
+    uint32_t m = sim::G.access_mean ? sim::G.access_mean : 30;
+    uint32_t d = sim::G.replay ? 0 : (uint32_t)sim::G.rng.below(2 * m);
+    me->access_countdown = 2 + sim::choose(CK_MISC, 4096, d);
+}
+
 void sim_atomic_point(const volatile void *addr, int kind) {
     if (!sim::active()) return;
     sim::point(PK_ATOMIC, (const void *)addr, kind);
@@ -1002,6 +1042,15 @@ int __wrap_nanosleep(const struct timespec *req, struct timespec *rem) {
     return 0;
 }
 int __wrap_posix_memalign(void **out, size_t align, size_t size) {
+    if (sim::active() && G.recycle && align == 4096 && size == 4096 && G.pool.size() > 1 && (G.pages_total & 1)) {
+        // a real malloc may well return memory that was freed a moment ago, contents intact
+        *out = G.pool.front();
+        G.pool.erase(G.pool.begin());
+        G.pages.push_back({*out, size});
+        G.pages_total++;
+        G.stats.probes["page_memory_reused"]++;
+        return 0;
+    }
     int rc = __real_posix_memalign(out, align, size);
     if (rc == 0 && sim::active()) {
         G.pages.push_back({*out, size});
@@ -1012,7 +1061,12 @@ int __wrap_posix_memalign(void **out, size_t align, size_t size) {
 void __wrap_free(void *p) {
     if (p && G.run_active && !G.pages.empty()) {
         for (size_t i = 0; i < G.pages.size(); i++)
-            if (G.pages[i].p == p) { G.pages.erase(G.pages.begin() + i); break; }
+            if (G.pages[i].p == p) {
+                bool keep = G.recycle && G.pages[i].size == 4096;
+                G.pages.erase(G.pages.begin() + i);
+                if (keep) { G.pool.push_back(p); return; }
+                break;
+            }
     }
     __real_free(p);
 }
